@@ -57,6 +57,12 @@ Definition register_with (exact : bool) (cap : N) (b : book) (s : rshard) : book
     mkBook colls' (sh_hash s :: b_known b) (b_total b + (if exact then new - old else if upd then N.of_nat (length (sh_tbl s)) else 0)).
 Definition register : N -> book -> rshard -> book := register_with index_counts_inserted_entries.
 
+(* one register_shards call with several files: they are registered from the newest to the oldest modification time (a stable
+   sort of the argument list by descending time); [l] pairs each file with its modification time in seconds *)
+Definition batch_order (l : list (N * rshard)) : list rshard :=
+  map snd (sort_by_key (map (fun x => (18446744073709551616 - fst x, snd x)) l)).
+Definition register_batch (cap : N) (b : book) (l : list (N * rshard)) : book := fold_left (register cap) (batch_order l) b.
+
 (* the block whose header is record number [start] of the CAS section *)
 Fixpoint block_at (cass : list cas_info) (start : N) : option cas_info :=
   match cass with
